@@ -166,8 +166,12 @@ def run(ctx):
     if f:
         count_guard(ctx, f, "package-count", arg(2), arg(1))
         w = Width()
-        mk = lambda item: cmp_fact("eq", w.of(length(identity_prefixed(
-            lambda s: fld(fld(tfield(item, 1), "commitment"), "0")(s)))), w.of(fld(arg(1), "min_signers")), False)
+        # the length of [identity] ++ c, as the length of that sequence or as len(c) + 1
+        cof = lambda item: (lambda s: fld(fld(tfield(item, 1), "commitment"), "0")(s))
+        plus1 = lambda item: (lambda t: t[0] == "bin" and t[1] == "Add" and (
+            (length(cof(item))(t[2]) and const(1)(t[3])) or (length(cof(item))(t[3]) and const(1)(t[2]))))
+        mk = lambda item: cmp_fact("eq", w.of(either(length(identity_prefixed(cof(item))), plus1(item))),
+                                   w.of(fld(arg(1), "min_signers")), False)
         lp = forall_loop(ctx, f, "LOOPDOM", "G36:commitment-length+1==min_signers", lambda s: s == ("arg", 2),
                          [("len!=min", mk)])
         ctx.check(not w.narrow, "SEP-width", f.key, "G36:commitment-length+1==min_signers",
